@@ -343,7 +343,14 @@ def streams_for(pid, tier, rng):
                          "@range %d %d 1 %d YM.extract %%" % (-YM_MAX, -YM_MAX + 100000, BLK)]))
         lines = ["@range %d %d 1000000 %d DT.extract %%" % (-2 * USECS_PER_DAY, 2 * USECS_PER_DAY, BLK),
                  "@range %d %d 1000000 %d DT.acc %%" % (-2 * USECS_PER_DAY, 2 * USECS_PER_DAY, BLK),
-                 "@range %d %d 999983 %d DT.extract %%" % (-2 * USECS_PER_DAY, 2 * USECS_PER_DAY, BLK)]
+                 "@range %d %d 999983 %d DT.extract %%" % (-2 * USECS_PER_DAY, 2 * USECS_PER_DAY, BLK),
+                 "@range %d %d 999983 %d DT.acc %%" % (-2 * USECS_PER_DAY, 2 * USECS_PER_DAY, BLK),
+                 "@range %d %d 1 %d DT.acc %%" % (59000000, 60999999, BLK),
+                 "@range %d %d 1 %d DT.acc %%" % (-61000000, -59000000, BLK),
+                 "@range %d %d %d %d DT.acc %%" % (-DT_MAX, DT_MAX, 86399999999 * 7919 + 7, BLK),
+                 "@range %d %d %d %d DT.extract %%" % (-DT_MAX, DT_MAX, 86399999999 * 7919 + 7, BLK)]
+        for _ in range(2000 * scale):
+            lines.append("DT.acc %d" % rng.range(-DT_MAX, DT_MAX))
         for e in range(0, 19):
             for s in (1, -1):
                 for d in (-1, 0, 1):
